@@ -201,12 +201,14 @@ structure BwBlock where
   width : Nat
 deriving Repr
 
-def chunksAux (n : Nat) : Nat → List α → List (List α)
-  | 0, _ => []
-  | fuel + 1, l => if n = 0 || l.isEmpty then [] else l.take n :: chunksAux n fuel (l.drop n)
+/-- mirrors: blockwise_linear.rs::compute_num_blocks -/
+def numChunks (n len : Nat) : Nat := (len + n - 1) / n
 
-/-- consecutive chunks of `n` elements (the last one may be shorter) -/
-def chunks (n : Nat) (l : List α) : List (List α) := chunksAux n l.length l
+/-- block `b` of the serializer loop (`for _ in 0..num_blocks { vals.take(BLOCK_SIZE) }`):
+`vals[b·n .. (b+1)·n]` (the last one may be shorter) -/
+def chunk (n : Nat) (l : List α) (b : Nat) : List α := (l.drop (b * n)).take n
+
+def chunks (n : Nat) (l : List α) : List (List α) := (List.range (numChunks n l.length)).map (chunk n l)
 
 /-- one block of the serializer: normalise, train, offsets, width -/
 def bwBlockEnc (s : Stats) (block : List Nat) : BwBlock × List Nat :=
@@ -235,10 +237,13 @@ def bwBlocksDec : Nat → Bytes → Option (List BwBlock)
       let rest ← bwBlocksDec n bs
       some ({ line := l, width := w } :: rest)
 
-/-- byte offset of each block: `Σ width * BLOCK_SIZE / 8` -/
-def bwOffsets (blocks : List BwBlock) : List Nat :=
-  (blocks.foldl (fun (acc : List Nat × Nat) b =>
-      (acc.1 ++ [acc.2], acc.2 + b.width * Gen.BLOCKWISE_LINEAR_BLOCK_SIZE / 8)) ([], 0)).1
+/-- byte offset of each block: running sum of `width * BLOCK_SIZE / 8`
+(mirrors the `start_offset` loop of BlockwiseLinearCodec::load) -/
+def bwOffsetsFrom : Nat → List BwBlock → List Nat
+  | _, [] => []
+  | acc, b :: bs => acc :: bwOffsetsFrom (acc + b.width * Gen.BLOCKWISE_LINEAR_BLOCK_SIZE / 8) bs
+
+def bwOffsets (blocks : List BwBlock) : List Nat := bwOffsetsFrom 0 blocks
 
 /-- mirrors: BlockwiseLinearReader::get_val -/
 def blockwiseGet (s : Stats) (blocks : List BwBlock) (offsets : List Nat) (data : Bytes) (i : Nat) : Nat :=
